@@ -518,7 +518,7 @@ Definition tg_observe (gop : tgraph * tg_op) : val :=
       L [vres (fun p => L [vzl (fst p); vzl (snd p)]) r; vstate g'; vbool (notify_consumes_draw g t)]
   | OReleasable => vzl (tg_releasable g)
   | OSched o draws => vres (fun p => L [vzl (fst p); vnat (length (snd p))]) (tg_schedulable g o draws)
-  | OReady t => vbool (is_ready_to_run (tg_terminal g t) (map (tg_complete g) (tg_parents g t)) (tg_state g t))
+  | OReady t => vbool (is_ready_to_run (tg_complete g) (tg_state g) (tg_terminal g t) (tg_parents g t) (tg_state g t))
   | OFlags => L [vbool (tg_is_complete g); vbool (tg_is_cancelled g)]
   | OTopo => vres vzl (topo_sort g)
   | ODfs t => vopt vzl (depth_first g t)
@@ -654,10 +654,13 @@ Definition c18_no_plan_ahead_applies (x : tgraph * sched_opts * list Z) : bool :
   (so_lookahead o =? 0) && negb (so_retract o) && negb (so_release_tg o) && frontier_sane g (so_time o).
 
 (* ---------- documented forms, written by hand (they do NOT follow the regenerated source) ---------- *)
-(* a task may start when it is SCHEDULED / PREEMPTED and its inputs are there: every parent complete, for
-   the join of a conditional one parent complete *)
+(* a task may start when it is SCHEDULED / PREEMPTED and its inputs are there: every parent complete; for the
+   join of a conditional: one parent complete and no parent still alive (every parent complete or CANCELLED) *)
 Definition doc_ready (g : tgraph) (t : Z) : bool :=
-  (if tg_terminal g t then existsb (tg_complete g) (tg_parents g t) else forallb (tg_complete g) (tg_parents g t))
+  (if tg_terminal g t
+   then existsb (tg_complete g) (tg_parents g t) &&
+        forallb (fun p => tg_complete g p || is_cancelled g p) (tg_parents g t)
+   else forallb (tg_complete g) (tg_parents g t))
   && (task_state_eqb (tg_state g t) TS_SCHEDULED || task_state_eqb (tg_state g t) TS_PREEMPTED).
 Definition c18_ready_check (x : tgraph * Z * bool) : bool :=
   let '(g, t, answer) := x in Bool.eqb answer (doc_ready g t).
